@@ -4,7 +4,7 @@ import math
 from ..common import b2f, f2b
 from ..gen import gen_tree, infosets_of
 from ..ops import CaseBuilder
-from ..solvers import rand_params, draws_for, level_tree, alternating_tree, hidden_deal_tree, INF
+from ..solvers import rand_params, draws_for, level_tree, alternating_tree, hidden_deal_tree, tiny_unit, INF
 
 METHODS = ["full"]
 PID = "C06"
@@ -14,7 +14,7 @@ N_QUICK = 150
 N_THOROUGH = 4000
 HARNESS_JOBS = 2
 RULE = ("random perfect-recall trees and frontier-adversarial trees (BFS levels of exactly 3k-1, 3k, 3k+1 nodes for k "
-        "threads) x parameter sets x budgets {1,2,3,4,10} x thresholds x thread counts {2,3,4,8,16,64}: each configuration is "
+        "threads; 15 % in a far-out payoff unit 2^-200..2^150) x parameter sets x budgets {0,1,2,3,4,10} x thresholds x thread counts {2,3,4,8,16,64}: each configuration is "
         "solved with one thread and with k threads (repeated with different seeded yield-point perturbations) and both are "
         "compared with each other (monitor, 1e-9 relative) and with the model; non-trivial = budget >= 2 on a tree with >= 7 "
         "nodes (the frontier really splits and the workspace is reused across iterations); distinct by (tree, config) hash")
@@ -29,7 +29,7 @@ def config(rng, t, st, methods):
         # "immediate forgetting" of positive regret: the discount factor is exactly zero, so the order of
         # regret matching and discounting in the per-infoset update becomes visible
         params = [-INF, rng.choice([-INF, 0.0, 1.0, INF]), rng.choice([0.0, 1.0, 2.0]), rng.choice([INF, 0.0, -0.5, 1.0])]
-    T = rng.choice([1, 2, 2, 3, 3, 4, 10])
+    T = rng.choice([0, 1, 2, 2, 3, 3, 4, 10])
     r = rng.choice([0.0, 0.0, 0.0, -1.0, 1e-2, 0.5, 5.0])
     draws = draws_for(rng, t, st) if method != "full" else None
     return method, params, T, r, draws
@@ -81,8 +81,13 @@ def generate(rng, tier, n, methods=METHODS):
         else:
             t, st = gen_tree(rng, max_nodes=rng.choice([15, 40, 80]), max_depth=rng.choice([4, 6]),
                              p_share=rng.choice([0.5, 0.8]))
+        unit = None
+        if rng.random() < 0.15:
+            t, unit = tiny_unit(rng, t)
         method, params, T, r, draws = config(rng, t, st, methods)
         cases.append(build(cid, t, st, method, params, T, r, draws, ks, reps, rng, record=(methods != METHODS)))
+        if unit is not None:
+            cases[-1].meta["unit"] = unit
         cid += 1
     return cases
 
@@ -154,4 +159,4 @@ def nontrivial(cb, impl):
 
 def classify(cb, impl):
     m = cb.meta
-    return ["method_" + m["method"], "T_%d" % m["T"]] + ["threads_%d" % k for k in m["ks"]]
+    return ["method_" + m["method"], "T_%d" % m["T"]] + ["threads_%d" % k for k in m["ks"]] + (["far_out_payoff_unit"] if m.get("unit") else [])
